@@ -496,6 +496,16 @@ pub fn apply_edit(cx: &mut Cx, nm: &mut Namer, file: &mut A2lFile) -> Option<Str
     }
 }
 
+/// sort every MODULE-level list by name (for comparisons up to list order)
+pub fn canonicalize_lists(file: &mut A2lFile) {
+    for m in &mut file.project.module {
+        macro_rules! canon {
+            ($($list:ident),*) => { $( m.$list.sort_by(|x, y| x.get_name().cmp(y.get_name())); )* };
+        }
+        canon!(measurement, characteristic, compu_method, group, function, unit, record_layout, compu_vtab, axis_pts, compu_tab, compu_vtab_range, frame, instance, blob, transformer, typedef_axis, typedef_blob, typedef_characteristic, typedef_measurement, typedef_structure);
+    }
+}
+
 /// canonical rendering of IF_DATA content: values only (no line / uid / offsets), map keys sorted
 pub fn ifdata_repr(d: &GenericIfData, out: &mut String) {
     use std::fmt::Write;
